@@ -135,6 +135,20 @@ def run_case(case):
     cfg = {'checkpoints': ncp, 'resources': [len(t) for t in tables], 'classes': classes, 'history': hist}
     cov['history']['cp%d/len%d' % (ncp, len(hist))] = 1
     cpdir = 'cps'
+    # a quarter of the histories re-run ONE Flow object (re-iterable sources, function steps) instead of building a
+    # fresh flow per run
+    reuse = rng.random() < 0.25
+    cfg['same_flow_object'] = reuse
+    shared_cnt = {}
+
+    class Source:
+        def __init__(self, i):
+            self.i = i
+
+        def __iter__(self):
+            for row in copy.deepcopy(tables[self.i]):
+                shared_cnt['pulled'] = shared_cnt.get('pulled', 0) + 1
+                yield row
 
     def build(cnt):
         """fresh flow: source, seg0, cp0, seg1, cp1, ... seg_ncp ; counters per segment."""
@@ -146,11 +160,25 @@ def run_case(case):
             return g()
         desc = {'resources': [{'name': 'res%d' % i, 'path': 'res%d.csv' % i,
                                'schema': {'fields': copy.deepcopy(fields)}} for i in range(nres)]}
-        steps = [d.load((desc, [source(i) for i in range(nres)]), strip=False)]
+        if reuse:
+            # a re-runnable source step with the same explicit schema (load() objects cannot be run twice)
+            def src(package):
+                for r in copy.deepcopy(desc['resources']):
+                    package.pkg.add_resource(r)
+                yield package.pkg
+                yield from package
+                for i in range(nres):
+                    yield iter(Source(i))
+            steps = [src]
+        else:
+            steps = [d.load((desc, [source(i) for i in range(nres)]), strip=False)]
 
         def seg(k):
             def f(row):
                 cnt['seg%d' % k] += 1
+                # non-idempotent in-place edit: a checkpoint that stored the row AFTER a later segment touched it,
+                # or a resumed run that re-applies an upstream segment, changes this value
+                row['id'] = row['id'] + 1000 * (10 ** k)
             f.__name__ = 'seg%d' % k
             # Flow only accepts plain functions whose single parameter is named row
             return f
@@ -183,11 +211,26 @@ def run_case(case):
                 exists[k] = False
             continue
         run_no += 1
-        cnt = {'pulled': 0}
+        if reuse:
+            cnt = shared_cnt
+            cnt.clear()
+            cnt['pulled'] = 0
+        else:
+            cnt = {'pulled': 0}
         for k in range(ncp + 1):
             cnt['seg%d' % k] = 0
             cnt['pkg%d' % k] = 0
-        out = lab.run(build(cnt), validate=True)
+        if reuse:
+            if run_no == 1:
+                the_flow = d.Flow(*build(cnt))
+            try:
+                with boot.quiet() as cap:
+                    results, dp, stats = the_flow.results()
+                out = lab.Outcome(True, results, copy.deepcopy(dp.descriptor), stats, logged=cap.records)
+            except Exception as e:
+                out = lab.Outcome(False, exc=e)
+        else:
+            out = lab.run(build(cnt), validate=True)
         if not out.ok:
             add('run_failed', 'run %d failed: %s' % (run_no, out.errstr()), 'run_failed/' + '+'.join(sorted(classes)))
             break
